@@ -200,6 +200,72 @@ def outline(cls_node, fn, marker, name, order_hint=()):
     return helper
 
 
+def outline_block(cls_node, fn, marker, name, order_hint=()):
+    """move the outermost block (branch of an `if`, `else` of a loop, handler body) of method `fn` that holds `marker` and contains no
+    return / yield / break / continue into a new method; locals read become parameters; locals written and read outside are returned
+    unless every path through the block raises (then nothing after it sees them)"""
+    if not fn.args.args or fn.args.args[0].arg != 'self':
+        return None
+    chain = _chain(fn, marker)
+    if len(chain) < 2:
+        return None
+    params = [a.arg for a in fn.args.args + fn.args.kwonlyargs] + ([fn.args.vararg.arg] if fn.args.vararg else []) + \
+        ([fn.args.kwarg.arg] if fn.args.kwarg else [])
+    locals_ = set(params) | set(_names(fn.body, ast.Store))
+    for n in ast.walk(fn):
+        if isinstance(n, ast.ExceptHandler) and n.name:
+            locals_.add(n.name)
+    locals_.discard('self')
+    nested = [n for n in ast.walk(fn) if n is not fn and isinstance(n, (ast.FunctionDef, ast.Lambda))]
+    captured = set(_names(nested, ast.Load))
+    forbidden = (ast.Return, ast.Yield, ast.YieldFrom, ast.Break, ast.Continue, ast.FunctionDef, ast.AsyncFunctionDef, ast.ClassDef, ast.Lambda,
+                 ast.Global, ast.Nonlocal, ast.Await, ast.NamedExpr, ast.Delete)
+    from .normalise import _terminates
+    for stmts, idx in chain[1:]:
+        block = stmts
+        if any(isinstance(n, forbidden) for s in block for n in ast.walk(s)):
+            continue
+        rids = {id(x) for s in block for x in ast.walk(s)}
+        writes = _names(block, ast.Store) + [n.name for s in block for n in ast.walk(s) if isinstance(n, ast.ExceptHandler) and n.name]
+        if set(writes) & captured or 'self' in writes:
+            continue
+        outside_loads = [n.id for n in _own_walk(fn) if isinstance(n, ast.Name) and isinstance(n.ctx, ast.Load) and id(n) not in rids]
+        outside_stores = {n.id for n in _own_walk(fn) if isinstance(n, ast.Name) and isinstance(n.ctx, ast.Store) and id(n) not in rids} | set(params)
+        ins = [x for x in _names(block, ast.Load) if x in locals_ and x in outside_stores and x != 'self']
+        outs = [] if _terminates(block) else [w for w in writes if w in outside_loads]
+        da = _definitely_assigned(block)
+        ok = True
+        for w in outs:
+            if w not in da:
+                if w in outside_stores:
+                    if w not in ins:
+                        ins.append(w)
+                else:
+                    ok = False
+        if not ok:
+            continue
+        hint = [h for h in order_hint if h in ins]
+        ins = hint + [x for x in ins if x not in hint]
+        call = ast.Call(func=ast.Attribute(value=ast.Name(id='self', ctx=ast.Load()), attr=name, ctx=ast.Load()),
+                        args=[ast.Name(id=x, ctx=ast.Load()) for x in ins], keywords=[])
+        body = list(block)
+        if outs:
+            tgt = ast.Name(id=outs[0], ctx=ast.Store()) if len(outs) == 1 else ast.Tuple(elts=[ast.Name(id=x, ctx=ast.Store()) for x in outs], ctx=ast.Store())
+            body.append(ast.Return(value=ast.Name(id=outs[0], ctx=ast.Load()) if len(outs) == 1 else
+                                   ast.Tuple(elts=[ast.Name(id=x, ctx=ast.Load()) for x in outs], ctx=ast.Load())))
+            repl = ast.Assign(targets=[tgt], value=call)
+        else:
+            repl = ast.Expr(value=call)
+        helper = ast.FunctionDef(name=name, args=ast.arguments(posonlyargs=[], args=[ast.arg(arg='self')] + [ast.arg(arg=x) for x in ins],
+                                                               kwonlyargs=[], kw_defaults=[], defaults=[]),
+                                 body=body, decorator_list=[], returns=None, type_comment=None, lineno=block[0].lineno, col_offset=fn.col_offset)
+        stmts[:] = [ast.copy_location(repl, block[0])]
+        cls_node.body.append(helper)
+        ast.fix_missing_locations(helper)
+        return helper
+    return None
+
+
 # ---- the roles -------------------------------------------------------------------------------------------------------------------
 
 def _is_draw(n):
@@ -207,9 +273,21 @@ def _is_draw(n):
         isinstance(n.func.value, ast.Attribute) and isinstance(n.func.value.value, ast.Name) and n.func.value.value.id == 'self'
 
 
+def _is_kill_call(cls_node):
+    """call of the method of this class that sends the kill signal (os.kill / <handle>.kill())"""
+    killers = {m.name for m in cls_node.body if isinstance(m, ast.FunctionDef) and any(
+        isinstance(n, ast.Call) and isinstance(n.func, ast.Attribute) and n.func.attr == 'kill' for n in ast.walk(m))}
+
+    def pred(n):
+        return isinstance(n, ast.Call) and isinstance(n.func, ast.Attribute) and n.func.attr in killers and \
+            isinstance(n.func.value, ast.Name) and n.func.value.id == 'self'
+    return pred
+
+
 ROLES = [
-    # (module, class, pinned owner of the marker, marker predicate, name of the synthetic method)
-    ('playback.tape_recorder', 'TapeRecorder', '_should_sample_active_recording', _is_draw, '_sampling_decision__outlined'),
+    # (module, class, pinned owner of the marker, marker predicate (or factory taking the class), name of the synthetic method, kind)
+    ('playback.tape_recorder', 'TapeRecorder', '_should_sample_active_recording', _is_draw, '_sampling_decision__outlined', 'pure'),
+    ('playback.studio.equalizer', 'Equalizer', '_handle_compare_execution_timeout', _is_kill_call, '_timeout_path__outlined', 'block'),
 ]
 
 
@@ -275,13 +353,15 @@ def outline_roles(trees, signatures):
     """returns [(role name, function it was taken out of)]"""
     done = []
     _outline_templates(trees, signatures, done)
-    for module, cls, owner, pred, name in ROLES:
+    for module, cls, owner, pred, name, kind in ROLES:
         t = trees.get(module)
         if t is None:
             continue
         for c in t.body:
             if not (isinstance(c, ast.ClassDef) and c.name == cls):
                 continue
+            if pred is _is_kill_call:
+                pred = pred(c)
             hosts = [(m, n) for m in c.body if isinstance(m, ast.FunctionDef) for n in _own_walk(m) if pred(n)]
             if len(hosts) != 1:
                 continue
@@ -291,7 +371,7 @@ def outline_roles(trees, signatures):
             if any(isinstance(x, ast.FunctionDef) and x.name == owner for x in c.body):
                 continue
             hint = signatures.get('%s::%s::%s' % (module, cls, owner), [])
-            h = outline(c, m, marker, name, order_hint=[p for p in hint if p != 'self'])
+            h = (outline if kind == 'pure' else outline_block)(c, m, marker, name, order_hint=[p for p in hint if p != 'self'])
             if h is not None:
                 done.append((name, m.name))
     return done
